@@ -52,6 +52,20 @@ def scenarios(tier, rng):
                 gens.append({"ops": after_kill(full, extra_restore_each=r < 0.6)})
             out.append(base_scenario(f"{kind}-{pname}-{tag}-f{freq}m{keep}{'a' if isasync else 's'}", kind, pname,
                                      pspec, full, freq, keep, isasync, gens, shim_log=True))
+    # a kill while the RESTORING process is being set up (crash - restore - crash - restore): constructing the solver on
+    # the directory touches it again (directory creation, configuration file, manager) before any sweep is made
+    for kind, pname in ([("VI", "forest"), ("PI", "forest")] if tier == "quick" else combos):
+        pspec, full = P[pname]
+        if not full:
+            continue
+        for n in ([1, 2, 3] if tier == "quick" else [1, 2, 3, 4, 5, 6]):
+            isasync = rng.random() < 0.5
+            out.append(base_scenario(f"{kind}-{pname}-kill-while-restoring-fs{n}-{'a' if isasync else 's'}", kind, pname, pspec, full,
+                                     1, 2, isasync,
+                                     [{"ops": [{"op": "new"}, {"op": "solve", "k": 4}, {"op": "wait"}, {"op": "list", "dir": "@A"}]},
+                                      {"ops": [{"op": "list", "dir": "@A"}, restore_op(full), {"op": "solve", "k": 2}, {"op": "wait"}],
+                                       "shim_kill": n},
+                                      {"ops": after_kill(full)}], shim_log=True))
     return out
 
 
